@@ -3,6 +3,7 @@ package main
 import (
 	"fmt"
 	"go/ast"
+	"go/token"
 	"go/types"
 	"sort"
 	"strings"
@@ -34,9 +35,10 @@ func (f *Frame) loopBlocks(h *ssa.BasicBlock) map[*ssa.BasicBlock]bool {
 }
 
 type writeSet struct {
-	comps map[string]string // comp name -> sort
-	full  bool
-	why   string
+	comps    map[string]string // comp name -> sort
+	prefixes []string          // coarse frames of callees
+	full     bool
+	why      string
 }
 
 func (w *writeSet) add(name, sort string) { w.comps[name] = sort }
@@ -68,6 +70,7 @@ func (e *Enc) staticWrites(fn *ssa.Function, blocks map[*ssa.BasicBlock]bool, w 
 				if rng, ok := in.Iter.(*ssa.Range); ok && !in.IsString {
 					mt := rng.X.Type().Underlying().(*types.Map)
 					w.add("GHseen_"+sanitize(rng.Name()), fmt.Sprintf("(Array %s Bool)", e.sortOf(mt.Key())))
+					w.add("GHseen_n_"+sanitize(rng.Name()), e.idxSort())
 				}
 			case *ssa.Go, *ssa.Send, *ssa.Select, *ssa.Defer, *ssa.RunDefers:
 				w.full = true
@@ -206,9 +209,11 @@ func (e *Enc) calleeWrites(callee *ssa.Function, w *writeSet, depth int, seen ma
 		}
 		return
 	}
-	if e.canInline(callee, depth) && !seen[callee] {
-		seen[callee] = true
-		e.staticWrites(callee, nil, w, depth+1, seen)
+	if e.canInline(callee, depth) {
+		if !seen[callee] {
+			seen[callee] = true
+			e.staticWrites(callee, nil, w, depth+1, seen)
+		}
 		return
 	}
 	w.full = true
@@ -239,6 +244,7 @@ func (e *Enc) contractWrites(c *Contract, callee *ssa.Function, w *writeSet) {
 			w.add(mc, e.comps[mc])
 		}
 	}
+	w.prefixes = append(w.prefixes, c.ModComps...)
 }
 
 // loopHeader: invariants established on entry, state havocked, invariants assumed.
@@ -305,6 +311,9 @@ func (f *Frame) loopHeader(b *ssa.BasicBlock, preds []*ssa.BasicBlock, conds []s
 	if w.full {
 		e.fullHavoc(f.st, fmt.Sprintf("loop %d of %s: %s", ord, f.fn.Name(), w.why))
 	} else {
+		if len(w.prefixes) > 0 {
+			e.havocMatching(f.st, w.prefixes)
+		}
 		for _, n := range wnames {
 			e.havocComp(f.st, n)
 		}
@@ -322,8 +331,12 @@ func (f *Frame) loopHeader(b *ssa.BasicBlock, preds []*ssa.BasicBlock, conds []s
 		cur["$"+phi.Name()] = CVal{S: v, T: phi.Type()}
 		f.addIter(phi, v, cur)
 		if phi.Comment == "rangeindex" {
-			// range loops: the hidden index starts at -1 and only grows (inductive by construction: next = index+1)
+			// range loops: the hidden index starts at -1 and only grows (inductive by construction: next = index+1),
+			// and the loop is left as soon as index+1 reaches the length evaluated before the loop
 			e.assume(f.reach, e.idxLe(e.idxLit("-1"), v))
+			if n := rangeLimit(b, phi); n != nil {
+				e.assume(f.reach, e.idxLe(e.idxAdd(v, e.idxLit("1")), f.idxVal(n)))
+			}
 		}
 	}
 	// assume invariants
@@ -334,6 +347,9 @@ func (f *Frame) loopHeader(b *ssa.BasicBlock, preds []*ssa.BasicBlock, conds []s
 	// automatic frame invariant: locations allocated before the call and not in modifies are unchanged
 	if !w.full && f.top && e.unit.HasMod {
 		for _, n := range wnames {
+			if matchPrefix(n, e.unit.ModComps) {
+				continue
+			}
 			if fact := e.frameFact(n, f.entrySt, f.st, f.modRefs(n)); fact != "" {
 				// it holds on entry iff it held for the pre-loop state; proved by back-edge obligations
 				e.assume(f.reach, fact)
@@ -349,6 +365,31 @@ func (f *Frame) addIter(phi *ssa.Phi, v string, m map[string]CVal) {
 	if phi.Comment == "rangeindex" {
 		m["iter"] = CVal{S: f.e.idxAdd(v, f.e.idxLit("1")), T: phi.Type()}
 	}
+}
+
+// rangeLimit finds N in the header pattern "t = phi+1; if t < N" when N is computed before the loop.
+func rangeLimit(h *ssa.BasicBlock, phi *ssa.Phi) ssa.Value {
+	var next ssa.Value
+	for _, in := range h.Instrs {
+		if b, ok := in.(*ssa.BinOp); ok {
+			if b.Op == token.ADD && b.X == phi {
+				next = b
+			}
+			if b.Op == token.LSS && next != nil && b.X == next {
+				switch n := b.Y.(type) {
+				case *ssa.Const:
+					return n
+				case ssa.Instruction:
+					if n.Block() != h && n.Block().Dominates(h) {
+						return b.Y
+					}
+				case *ssa.Parameter:
+					return n
+				}
+			}
+		}
+	}
+	return nil
 }
 
 type loopMeta struct {
@@ -391,6 +432,7 @@ func (f *Frame) invEnv(h *ssa.BasicBlock, phis map[string]CVal, st *State) *CEnv
 					cp[k] = v
 				}
 				cp["$seen"] = CVal{S: f.e.comp(st, comp, sortName), T: mt.Key()}
+				cp["iter"] = CVal{S: f.e.comp(st, countComp(f, rng), f.e.idxSort()), T: intT}
 				phis = cp
 			}
 		}
@@ -434,6 +476,9 @@ func (f *Frame) backEdge(from, to *ssa.BasicBlock, cond string) {
 	}
 	if lm := loopMetas[f][to]; lm != nil && !lm.w.full && f.top && e.unit.HasMod {
 		for _, n := range lm.wnames {
+			if matchPrefix(n, e.unit.ModComps) {
+				continue
+			}
 			if fact := e.frameFact(n, f.entrySt, f.st, f.modRefs(n)); fact != "" {
 				e.oblige("frame", fmt.Sprintf("%s#frame[loop%d.%s]@%d", e.unit.Key(), ord, n, f.backOrd(from, to)), "frame", cond, fact, "")
 			}
@@ -566,6 +611,16 @@ func (f *Frame) mapNext(in *ssa.Next, rng *ssa.Range, ok, k string) {
 	e.assume(f.reach, fmt.Sprintf("(=> %s (not (select %s %s)))", ok, seen, k))
 	e.assume(f.reach, fmt.Sprintf("(=> (not %s) (forall ((|q.k| %s)) (! (=> (and (not (= %s 0)) (select (select %s %s) |q.k|)) (select %s |q.k|)) :pattern ((select %s |q.k|)))))", ok, ks, m, hd, m, seen, seen))
 	e.setComp(f.st, comp, fmt.Sprintf("(ite %s (store %s %s true) %s)", ok, seen, k, seen))
+	// ghost counter of yielded keys; when the iteration ends it equals len(map)
+	cnt := countComp(f, rng)
+	cur := e.comp(f.st, cnt, e.idxSort())
+	e.assume(f.reach, fmt.Sprintf("(=> (not %s) (= %s (%s (select %s %s))))", ok, cur, e.ufCard(mt), hd, m))
+	e.assume(f.reach, fmt.Sprintf("(=> (= %s 0) (= %s %s))", m, e.idxLit("0"), cur))
+	e.setComp(f.st, cnt, fmt.Sprintf("(ite %s %s %s)", ok, e.idxAdd(cur, e.idxLit("1")), cur))
+}
+
+func countComp(f *Frame, rng *ssa.Range) string {
+	return "GHseen_n_" + sanitize(f.prefix+rng.Name())
 }
 
 func seenComp(f *Frame, rng *ssa.Range) string {
